@@ -171,8 +171,10 @@ def writeout_steps():
             steps.append("bind")
         elif isinstance(st, ast.If) and "is_file()" in ast.unparse(st.test) and "unlink" in src and "rmtree(out_dir" in src:
             steps.append("removeOut")
-        elif "rmtree(out_dir" in src or "out_dir.unlink" in src:
+        elif isinstance(st, ast.Expr) and src.startswith("shutil.rmtree(out_dir"):
             steps.append("removeOut")
+        elif "out_dir.unlink" in src and "rmtree(out_dir" not in src:
+            steps.append("unlinkIfFile")  # removes a plain file only, a directory stays
         elif isinstance(st, ast.Try) and "out_dir.mkdir" in src:
             steps.append("mkdirOut")
         elif isinstance(st, ast.For) and isinstance(st.iter, ast.List) and ".mkdir" in src:
